@@ -36,7 +36,18 @@ mod private {
             let offset = stream.tell();
             let mut serializer = Serializer::new(BlockCheck::Crc32);
             self.serialize_tail(&mut serializer)?;
-            let size = stream.write_serializer(serializer)?.into();
+            let size: ASize = stream.write_serializer(serializer)?.into();
+            if size.into_u64() > 0xFFFF_u64 {
+                // The size of a tail is stored on 16 bits. Do not silently truncate it.
+                return Err(io::Error::new(
+                    io::ErrorKind::InvalidInput,
+                    format!(
+                        "Tail of {} bytes is too big to be recorded (maximum is 65535 bytes)",
+                        size.into_u64()
+                    ),
+                )
+                .into());
+            }
             Ok(SizedOffset { size, offset })
         }
     }
